@@ -31,9 +31,10 @@ import (
 const VC05RowsPerBatch = 4
 
 type vc05Wrap struct {
-	pw  *partWrapper
-	pid uint64
-	mem bool
+	pw   *partWrapper
+	pid  uint64
+	mem  bool
+	gone bool
 }
 
 // VC05 is one table under test.
@@ -50,6 +51,7 @@ type VC05 struct {
 	baseGo   int
 	closed   bool
 	mergeErr error
+	cache    storage.Cache
 }
 
 // VC05New opens an empty table rooted at root (must exist and be empty).
@@ -63,6 +65,7 @@ func VC05New(root string) *VC05 {
 		tst: tst, root: root, epoch: 1,
 		flushCh: make(chan *flusherIntroduction), mergeCh: make(chan *mergerIntroduction),
 		held: map[int]*snapshot{}, info: map[*partWrapper]*vc05Wrap{},
+		cache: storage.NewShardCache("verif", 0, 0),
 	}
 }
 
@@ -249,31 +252,38 @@ func (v *VC05) Close() {
 // flag set is gone (bounded wait; a directory that stays is reported as existing).
 func (v *VC05) Quiesce() {
 	deadline := time.Now().Add(3 * time.Second)
+	// 1. helper goroutines of this op (producer, `go MustRMAll`) have exited: goroutine count back at idle level.
+	//    Bounded: library goroutines that stay around raise the idle level after ~5ms without change.
 	stable, last := 0, -1
-	for time.Now().Before(deadline) {
+	for spins := 0; time.Now().Before(deadline); spins++ {
 		n := runtime.NumGoroutine()
 		if n <= v.baseGo {
 			break
 		}
 		if n == last {
 			stable++
-			if stable > 400 { // ~20ms without change: some library goroutine stays around
+			if stable > 50 {
 				v.baseGo = n
 				break
 			}
 		} else {
 			stable, last = 0, n
 		}
-		runtime.Gosched()
-		time.Sleep(50 * time.Microsecond)
+		if spins < 20 {
+			runtime.Gosched()
+		} else {
+			time.Sleep(100 * time.Microsecond)
+		}
 	}
+	// 2. every directory whose wrapper has been closed with the removable flag set is gone
 	for _, w := range v.seen {
-		if w.mem || atomic.LoadInt32(&w.pw.ref) > 0 || !w.pw.removable.Load() {
+		if w.mem || w.gone || atomic.LoadInt32(&w.pw.ref) > 0 || !w.pw.removable.Load() {
 			continue
 		}
 		p := partPath(v.root, w.pid)
 		for time.Now().Before(deadline) {
 			if _, err := os.Stat(p); err != nil {
+				w.gone = true
 				break
 			}
 			time.Sleep(100 * time.Microsecond)
@@ -371,8 +381,7 @@ func vc05Scan(parts []*part) string {
 }
 
 func (v *VC05) queryOf(s *snapshot) string {
-	cache := storage.NewShardCache("verif", 0, 0)
-	pp, _ := s.getParts(nil, cache, 0, 1<<40) // also installs the block cache on every part, as Query does
+	pp, _ := s.getParts(nil, v.cache, 0, 1<<40) // also installs the block cache on every part, as Query does
 	var per []string
 	for _, pw := range s.parts {
 		w := v.info[pw]
@@ -384,7 +393,16 @@ func (v *VC05) queryOf(s *snapshot) string {
 // Dump renders the observable state:
 // C=<epoch>:<ref>:[parts] | W=<pid><k>:<ref>:<removable>,… | H=k:<epoch>:<ref>:[parts];… | D=<dirs> | Q=k:<per part>/<all>;…
 func (v *VC05) Dump() string {
+	t0 := time.Now()
 	v.Quiesce()
+	if os.Getenv("VERIF_TRACE") != "" {
+		fmt.Fprintf(os.Stderr, "quiesce %v goroutines=%d base=%d\n", time.Since(t0), runtime.NumGoroutine(), v.baseGo)
+		defer func() { fmt.Fprintf(os.Stderr, "dump total %v\n", time.Since(t0)) }()
+		if os.Getenv("VERIF_TRACE") == "2" {
+			buf := make([]byte, 1<<16)
+			fmt.Fprintf(os.Stderr, "%s\n", buf[:runtime.Stack(buf, true)])
+		}
+	}
 	cur := v.tst.snapshot
 	v.note(cur)
 	keys := make([]int, 0, len(v.held))
@@ -458,4 +476,5 @@ func (v *VC05) Shutdown() {
 		v.Close()
 	}
 	v.Quiesce()
+	v.cache.Close()
 }
